@@ -269,6 +269,8 @@ pub struct TermState {
     /// callback-free observation: transcript snapshot taken at every flush when enabled
     pub snapshot_at_flush: bool,
     pub snapshots: Vec<(u64, Vec<String>)>,
+    /// called at every successful flush with (flush number, transcript); must not touch the terminal
+    pub on_flush: Option<Arc<dyn Fn(u64, &[String]) + Send + Sync>>,
 }
 
 #[derive(Clone)]
@@ -305,6 +307,7 @@ impl SimTerm {
                 flush_log: vec![],
                 snapshot_at_flush: false,
                 snapshots: vec![],
+                on_flush: None,
             })),
         }
     }
@@ -444,6 +447,10 @@ impl SimTerm {
                         let t = s.grid.transcript();
                         let f = s.flushes;
                         s.snapshots.push((f, t));
+                    }
+                    if let Some(h) = s.on_flush.clone() {
+                        let t = s.grid.transcript();
+                        h(s.flushes, &t);
                     }
                 }
                 Ok(())
